@@ -235,3 +235,12 @@ def run(chk):
     chk.fact("gcd(2^256, l) = 1 (Montgomery map is a bijection); zero value = limbs 0 = value 0", math.gcd(2**256, L) == 1, [], "arithmetic")
     t0 = time.time()
     chk.samples = [o.j() for o in chk.obs if "result =" in o.name][:6]
+
+
+def safety_net(chk):
+    for op, n, f in (("Add", 2, lambda x, y: x + y), ("Subtract", 2, lambda x, y: x - y), ("Negate", 1, lambda x: -x), ("Multiply", 2, lambda x, y: x * y),
+                     ("MultiplyAdd", 3, lambda x, y, z: x * y + z), ("Invert", 1, lambda a: pow(a, L - 2, L)), ("Set", 1, lambda x: x)):
+        hit = scalar_api_replay(chk, op, n, f, op)
+        if hit:
+            return hit
+    return None
